@@ -89,6 +89,59 @@ Proof.
     change (rev (NL :: rev l)) with (rev (rev l) ++ [NL]). rewrite rev_involutive, chomp_line by exact Hc. reflexivity.
 Qed.
 
+(* the same for the parser's own line splitter (Base.srclines: newlines and carriage returns only, since fix F28) *)
+Lemma clean_srcbreak l c : Clean l -> In c l -> is_srcbreak c = false /\ (c =? CR) = false /\ (c =? NL) = false.
+Proof.
+  intros H Hc. specialize (H _ Hc).
+  assert (E1 : (c =? CR) = false) by (destruct (c =? CR) eqn:E; [apply N.eqb_eq in E; subst c; discriminate|reflexivity]).
+  assert (E2 : (c =? NL) = false) by (destruct (c =? NL) eqn:E; [apply N.eqb_eq in E; subst c; discriminate|reflexivity]).
+  unfold is_srcbreak. rewrite E1, E2. repeat split; reflexivity.
+Qed.
+
+Lemma srck_chars l : forall cur rest, Clean l ->
+  srclines_keep_aux (l ++ rest) cur = srclines_keep_aux rest (rev l ++ cur).
+Proof.
+  induction l as [|c l IH]; intros cur rest H; [reflexivity|].
+  destruct (clean_srcbreak (c :: l) c H (or_introl eq_refl)) as (Hb & Hcr & _).
+  simpl. rewrite Hcr, Hb. rewrite IH by (intros x Hx; apply H; right; exact Hx).
+  rewrite <- app_assoc. reflexivity.
+Qed.
+
+Lemma src_chomp_line l : Clean l -> src_chomp (l ++ [NL]) = l.
+Proof.
+  intros H. unfold src_chomp. rewrite rev_app_distr. simpl.
+  destruct (rev l) as [|b r] eqn:R.
+  - assert (l = []) by (destruct l; [reflexivity | apply (f_equal (@length _)) in R; rewrite rev_length in R; discriminate]).
+    subst. reflexivity.
+  - assert (Hb : In b l) by (apply in_rev; rewrite R; left; reflexivity).
+    destruct (clean_srcbreak l b H Hb) as (_ & Hcr & _).
+    rewrite Hcr. change (rev r ++ [b]) with (rev (b :: r)). rewrite <- R. apply rev_involutive.
+Qed.
+
+Lemma src_chomp_clean l : Clean l -> src_chomp l = l.
+Proof.
+  intros H. unfold src_chomp. destruct (rev l) as [|a [|b r]] eqn:R; [destruct l; [reflexivity|apply (f_equal (@length _)) in R; rewrite rev_length in R; discriminate] | |].
+  - assert (Ha : In a l) by (apply in_rev; rewrite R; left; reflexivity). destruct (clean_srcbreak l a H Ha) as (Hb & _ & _). rewrite Hb. reflexivity.
+  - assert (Ha : In a l) by (apply in_rev; rewrite R; left; reflexivity). destruct (clean_srcbreak l a H Ha) as (Hb & _ & E1).
+    rewrite E1. simpl. rewrite Hb. reflexivity.
+Qed.
+
+Lemma srclines_join ls : Forall (fun l => Clean l /\ l <> []) ls -> srclines (join_nl ls) = ls.
+Proof.
+  unfold srclines, srclines_keep.
+  induction ls as [|l r IH]; intros H; [reflexivity|]. inversion H as [|? ? [Hc Hne] Hr]; subst.
+  destruct r as [|m r].
+  - change (join_nl [l]) with l. rewrite <- (app_nil_r l) at 1. rewrite srck_chars by exact Hc. simpl. rewrite app_nil_r.
+    unfold flush_rev. destruct (rev l) eqn:R.
+    + exfalso. apply Hne. destruct l; [reflexivity | apply (f_equal (@length _)) in R; rewrite rev_length in R; discriminate].
+    + rewrite <- R, rev_involutive. simpl. rewrite src_chomp_clean by exact Hc. reflexivity.
+  - rewrite join_nl_cons. rewrite srck_chars by exact Hc. rewrite app_nil_r.
+    cbn [srclines_keep_aux]. assert (X : (NL =? CR) = false) by reflexivity. rewrite X.
+    assert (Y : is_srcbreak NL = true) by reflexivity. rewrite Y.
+    cbn [map]. rewrite (IH Hr).
+    change (rev (NL :: rev l)) with (rev (rev l) ++ [NL]). rewrite rev_involutive, src_chomp_line by exact Hc. reflexivity.
+Qed.
+
 (* ---------- C18: format_part / format_src ---------- *)
 Definition CleanPart (p : part) : Prop :=
   Forall (fun l => Clean l /\ l <> []) (orig_lines p) /\ Forall (fun l => Clean l /\ l <> []) (exec_lines p) /\
@@ -100,7 +153,7 @@ Theorem format_part_plain p want prefix startline nd : CleanPart p ->
   ((if prefix then orig_lines p else exec_lines p), (if want then want_lines p else [])).
 Proof.
   intros (A & B & C). unfold format_part_pieces. simpl.
-  destruct prefix; destruct want; rewrite ?splitlines_join by assumption; rewrite ?map_id; reflexivity.
+  destruct prefix; destruct want; rewrite ?srclines_join by assumption; rewrite ?map_id; reflexivity.
 Qed.
 
 Lemma add_line_numbers_nth lines : forall start nd k l, nth_error lines k = Some l ->
@@ -125,8 +178,8 @@ Theorem format_part_numbers (p : part) (want prefix : bool) (startline nd k : na
   wl = (if want then map (fun w => repeat_char SP (S nd) ++ w) (want_lines p) else []).
 Proof.
   intros (A & B & C) H. unfold format_part_pieces. simpl.
-  rewrite (splitlines_join (want_lines p) C).
-  destruct prefix; rewrite ?splitlines_join by assumption;
+  rewrite (srclines_join (want_lines p) C).
+  destruct prefix; rewrite ?srclines_join by assumption;
     (split; [apply add_line_numbers_nth; exact H | split; [apply add_line_numbers_length | reflexivity]]).
 Qed.
 
@@ -286,7 +339,7 @@ Proof.
   intros (A & B & C) NE. unfold dump_part, dump_part_lines.
   assert (FB : Forall (fun l => Clean l /\ l <> []) (filter no_star (exec_lines p))).
   { rewrite Forall_forall in *. intros l Hl. apply filter_In in Hl. apply B. tauto. }
-  rewrite (splitlines_join _ FB).
+  rewrite (srclines_join _ FB).
   assert (FN : Forall NoNL (filter no_star (exec_lines p))).
   { eapply Forall_impl; [|exact FB]. intros l [H _]. apply Clean_NoNL. exact H. }
   destruct (want_lines p) as [|w ws] eqn:W.
